@@ -43,7 +43,7 @@ RULE = ('cap/poly: one case = one call (cap tuple, use-mask, ncaps argument, poi
         'non-trivial when the index list is not an identity prefix or a duplicate has to be removed. '
         'Distinct = distinct case keys (all parameters of the call).')
 ASSUMPTIONS = [
-    'cap sizes cm are taken from {1e-6, 0.1, 0.5, 1, 1.5, 2, -0.1, -0.5, -1.5}; cm = 0, |cm| > 2 and -0.0 are outside the bound',
+    'cap sizes cm are taken from {1e-6, 0.1, 0.5, 1, 1.5, 2, -0.1, -0.5, -1.5, 0, -2, -2.5}; cm > 2 and -0.0 are outside the bound',
     'a point whose 1 - x.p lies within 1e-12 of |cm| for a used cap is a don\'t-care for that cap (three-valued AND); the only '
     'boundary points decided are axis points on axis great-circle caps (cm = 1, Cartesian input), where 1 - x.p = cm holds '
     'exactly in float64 and the stated "<=" makes them inside',
@@ -51,6 +51,8 @@ ASSUMPTIONS = [
     'Mangle text files are written with shortest-round-trip decimals so that all storage routes hold bit-identical caps; '
     'the .ply format and the blist/bcaps tables carry no use-mask, so these routes are compared on all-caps masks only',
     'window polygons have 1..3 caps (the quantifier of the property); the zero-cap polygon is exercised in memory only',
+    'degenerate caps cm = 0 (only the centre, which lies in the band), cm = -2 and cm = -2.5 (nothing) and cm = 2 (everything) are '
+    'enumerated as used, masked-off and beyond-ncaps caps; positive cm > 2 is outside the bound',
     'set_use_caps: duplicates are exact copies (and sign-flipped copies unless allow_neg_doubles) as documented; '
     'near-duplicates at the tolerance are not generated; indices are < ncaps; default tol',
 ]
@@ -91,12 +93,16 @@ CENTRES = [
     ('r', R_VEC, R_RADEC),
 ]
 CVEC = {n: v for n, v, _r in CENTRES}
-CMS = [0.5, 1.0, 0.1, 1.5, 1.0e-6, 2.0, -0.5, -0.1, -1.5]
+CMS = [0.5, 1.0, 0.1, 1.5, 1.0e-6, 2.0, -0.5, -0.1, -1.5, 0.0, -2.0, -2.5]    # the last three are degenerate (empty) caps
 ABS_CMS = [0.5, 1.0, 0.1, 1.5, 1.0e-6, 2.0]
 
 # 10-cap alphabet for polygons, simplest first
 POLY_CAPS = [('+z', 0.5), ('+x', 1.0), ('+z', -0.1), ('-x', 1.5), ('+y', 0.1),
              ('d', 0.5), ('r', 1.0e-6), ('r', -0.5), ('-y', -1.5), ('-z', 2.0)]
+
+# alphabet with degenerate caps: cm = 0 (only the centre), cm <= -2 (nothing), cm = 2 (everything)
+DEG_CAPS = [('+z', 0.5), ('+x', 1.0), ('d', -0.5), ('+z', 0.0), ('+x', -2.0), ('d', -2.5), ('-z', 2.0)]
+ALPHAS = {'std': POLY_CAPS, 'deg': DEG_CAPS}
 
 # duplicate-rich alphabet for set_use_caps
 USE_CAPS_ALPHA = [('+z', 0.5), ('+z', -0.5), ('+z', 0.3), ('+z', -0.3), ('+x', 0.5)]
@@ -112,6 +118,20 @@ WIN_MENU = [
     ((4, 2), 2),               # only the negative cap used
     ((9, 6, 0), 6),            # first unused
     ((8, 3), 7),               # bit above ncaps set
+]
+
+
+# second menu: degenerate caps used / masked off / beyond an ncaps limit; a cap with its own complement; exact duplicates
+WIN_MENU_DEG = [
+    ([('+z', 0.5), ('+x', 0.0)], 1),                   # degenerate cap masked off
+    ([('+x', 1.0), ('d', -2.0)], 3),                   # empty: a used cm = -2 cap (hemisphere when ncaps = 1)
+    ([('d', -0.5), ('+z', -2.5), ('+x', 1.0)], 5),     # cm < -2 cap masked off in the middle
+    ([('-z', 2.0), ('+y', 0.1)], 3),                   # whole-sphere cap used
+    ([('+y', 0.1), ('+y', -2.0)], 1),                  # degenerate second cap masked off
+    ([('+z', 0.0)], 1),                                # a single cm = 0 cap
+    ([('+z', 0.5), ('+z', -0.5)], 3),                  # a cap and its complement: empty
+    ([('+x', 1.0), ('+x', 1.0)], 3),                   # exact duplicate caps
+    ([('d', 0.5), ('+z', 0.5), ('d', -0.5)], 7),       # complement pair around another cap
 ]
 
 
@@ -493,6 +513,21 @@ def _window_call(polys, pts, ncapsarg):
     return np.asarray(flag), np.asarray(idx)
 
 
+def _balkans_use_caps(fmt, specs, polys):
+    """window_read(balkans=True) must select every cap of every balkan."""
+    if not fmt.startswith('balkans'):
+        return []
+    try:
+        got = [int(v) for v in np.asarray(polys['USE_CAPS'])]
+        nc = [int(v) for v in np.asarray(polys['NCAPS'])]
+    except Exception as e:  # noqa: BLE001
+        return [('window_read:exception:%s:%s' % (type(e).__name__, fmt), repr(e), 0)]
+    exp = [(1 << len(s['caps'])) - 1 for s in specs]
+    if nc != [len(s['caps']) for s in specs] or got != exp:
+        return [('window_read:use_caps-not-all-caps:%s' % fmt, 'NCAPS %s USE_CAPS %s, expected USE_CAPS %s' % (nc, got, exp), 0)]
+    return []
+
+
 def _is_onecap_raw(fmt, specs):
     return fmt in ('fits-raw', 'fits1-raw') and max(len(s['caps']) for s in specs) == 1
 
@@ -604,6 +639,7 @@ def check_case(case):
             except Exception as e:  # noqa: BLE001
                 return [('%s:exception:%s:%s' % (READER[fmt], type(e).__name__, fmt), repr(e))]
             v, _idx = _window_check(fmt, specs, polys, ncapsarg, pfmt, pts, exp, ref, alldecs)
+            v = _balkans_use_caps(fmt, specs, polys) + v
             return [(s, m) for s, m, _k in v]
         finally:
             shutil.rmtree(tmp, ignore_errors=True)
@@ -642,6 +678,19 @@ def tasks(tier):
         t.append({'layer': 'window', 'menu': nmenu, 'prefix': [a], 'len': [1, 2]})
         for b in range(nmenu):
             t.append({'layer': 'window', 'menu': nmenu, 'prefix': [a, b], 'len': [3]})
+    # degenerate caps: polygons over DEG_CAPS and windows over WIN_MENU_DEG
+    for fmt in ('xyz', 'radec'):
+        t.append({'layer': 'poly', 'alpha': 'deg', 'n': [1, 2], 'prefix': [], 'fmt': fmt})
+        for a in range(len(DEG_CAPS)):
+            t.append({'layer': 'poly', 'alpha': 'deg', 'n': [3], 'prefix': [a], 'fmt': fmt})
+            if T:
+                for b in range(len(DEG_CAPS)):
+                    t.append({'layer': 'poly', 'alpha': 'deg', 'n': [4], 'prefix': [a, b], 'fmt': fmt})
+    for a in range(len(WIN_MENU_DEG)):
+        t.append({'layer': 'window', 'which': 'deg', 'menu': len(WIN_MENU_DEG), 'prefix': [a], 'len': [1, 2]})
+        if T:
+            for b in range(len(WIN_MENU_DEG)):
+                t.append({'layer': 'window', 'which': 'deg', 'menu': len(WIN_MENU_DEG), 'prefix': [a, b], 'len': [3]})
     t.append({'layer': 'usecaps', 'n': [1, 2], 'prefix': []})
     for a in range(5):
         t.append({'layer': 'usecaps', 'n': [3], 'prefix': [a]})
@@ -671,15 +720,17 @@ def _emit(acc, keyd, nontrivial, ok_label, viols, mk_case):
         acc.violation(sig, mk_case(k), msg)
 
 
-def _run_membership(acc, entry, layer, capids, caps, use, ncapsarg, fmt, ctor=None):
+def _run_membership(acc, entry, layer, capids, caps, use, ncapsarg, fmt, ctor=None, alpha='std'):
     pts = std_points(fmt)
-    decs = [std_decision(POLY_CAPS[c][0] if layer == 'poly' else c[0], caps[i][3], fmt) for i, c in enumerate(capids)]
+    decs = [std_decision(ALPHAS[alpha][c][0] if layer == 'poly' else c[0], caps[i][3], fmt) for i, c in enumerate(capids)]
     v, exp = _membership(entry, caps, use, ncapsarg, fmt, pts, decs, ctor)
     nin, nout, nb = int((exp == 1).sum()), int((exp == 0).sum()), int((exp == -1).sum())
     if nb:
         acc.skip('point-within-1e-12-of-a-cap-boundary', nb)
     acc.extra['point_decisions'] += nin + nout
     keyd = {'layer': layer, 'caps': capids, 'use': use, 'ncaps': ncapsarg, 'fmt': fmt, 'ctor': ctor}
+    if alpha != 'std':
+        keyd['alpha'] = alpha
     label = 'ok:%s:%s' % (entry, 'in+out' if nin and nout else ('all-in' if nin else 'all-out'))
 
     def mk(k):
@@ -754,22 +805,35 @@ def run_centres(acc, task):
 
 
 def run_poly(acc, task):
-    n, prefix, fmt = task['n'], task['prefix'], task['fmt']
-    for rest in itertools.product(range(10), repeat=n - len(prefix)):
-        capids = list(prefix) + list(rest)
-        caps = [cap_of(c) for c in capids]
-        for use in mask_menu(n):
-            for ncapsarg in range(0, n + 2):
-                _run_membership(acc, 'is_in_polygon', 'poly', capids, caps, use, ncapsarg, fmt)
+    prefix, fmt = task['prefix'], task['fmt']
+    alpha = task.get('alpha', 'std')
+    A = ALPHAS[alpha]
+    for n in (task['n'] if isinstance(task['n'], list) else [task['n']]):
+        for rest in itertools.product(range(len(A)), repeat=n - len(prefix)):
+            capids = list(prefix) + list(rest)
+            caps = [cap_of(c, A) for c in capids]
+            for use in mask_menu(n):
+                for ncapsarg in range(0, n + 2):
+                    _run_membership(acc, 'is_in_polygon', 'poly', capids, caps, use, ncapsarg, fmt, alpha=alpha)
 
 
-def _spec(menu_id, full):
+def _menu_item(menu, menu_id):
+    """-> (list of caps [x, y, z, cm], use-mask) of one menu polygon."""
+    if menu == 'deg':
+        named, use = WIN_MENU_DEG[menu_id]
+        return [[CVEC[n][0], CVEC[n][1], CVEC[n][2], cm] for n, cm in named], use
     capids, use = WIN_MENU[menu_id]
-    return {'caps': [cap_of(c) for c in capids], 'use': ((1 << len(capids)) - 1) if full else use}
+    return [cap_of(c) for c in capids], use
+
+
+def _spec(menu_id, full, menu='std'):
+    caps, use = _menu_item(menu, menu_id)
+    return {'caps': caps, 'use': ((1 << len(caps)) - 1) if full else use}
 
 
 def run_window(acc, task):
     nmenu, prefix = task['menu'], task['prefix']
+    menu = task.get('which', 'std')
     tmproot = tempfile.mkdtemp(prefix='verif_c12_')
     try:
         for L in task['len']:
@@ -778,15 +842,15 @@ def run_window(acc, task):
             for rest in itertools.product(range(nmenu), repeat=L - len(prefix)):
                 ids = list(prefix) + list(rest)
                 for full in (False, True):
-                    if not full and all(WIN_MENU[i][1] == (1 << len(WIN_MENU[i][0])) - 1 for i in ids):
+                    if not full and all(_menu_item(menu, i)[1] == (1 << len(_menu_item(menu, i)[0])) - 1 for i in ids):
                         continue       # identical to the all-caps variant
-                    specs = [_spec(i, full) for i in ids]
+                    specs = [_spec(i, full, menu) for i in ids]
                     fmts = list(FORMATS_MASK)
                     if max(len(s['caps']) for s in specs) == 1:
                         fmts += ONECAP_FORMATS
                     if full:
                         fmts += FORMATS_NOMASK + balkans_layouts_for(specs)
-                    _run_window_group(acc, ids, full, specs, fmts, tmproot)
+                    _run_window_group(acc, [menu] + ids, full, specs, fmts, tmproot)
     finally:
         shutil.rmtree(tmproot, ignore_errors=True)
 
@@ -811,6 +875,8 @@ def _run_window_group(acc, ids, full, specs, fmts, tmproot):
                     exp, alldecs = _window_expected(specs, ncapsarg, pfmt, pts, std=True)
                     r = ref.get((ncapsarg, pfmt)) if fmt != 'mem' else None
                     v, idx = _window_check(fmt, specs, polys, ncapsarg, pfmt, pts, exp, r, alldecs)
+                    if ncapsarg == 0 and pfmt == 'xyz':
+                        v = _balkans_use_caps(fmt, specs, polys) + v
                     if fmt == 'mem' and idx is not None:
                         ref[(ncapsarg, pfmt)] = idx
                     nund = int((exp == -2).sum())
